@@ -67,7 +67,7 @@ func runC08(r *mon.Run) {
 			hp.Negate(hp)
 			for _, b := range [][]byte{priv.Bytes(), priv.PublicKey().Bytes(), priv.PublicKey().CompressedBytes()} {
 				for j := range b {
-					b[j] ^= 0x3c
+					b[j] += 0x3d
 				}
 			}
 			w.Class("c08:key-used-before-signing")
